@@ -127,6 +127,7 @@ type subOpts struct {
 type wopts struct {
 	M     mini.Mask `json:"M"`
 	R     mini.Mask `json:"R"`
+	Mm    mini.Mask `json:"mm"`
 	Ev    optMsg    `json:"ev"`
 	Chk   int       `json:"chk"`
 	Xa    bool      `json:"xa"`
@@ -259,6 +260,9 @@ func writeOptions(o wopts, cb *cbCount) []resource.WriteOption {
 	}
 	if !o.R.Nil {
 		ws = append(ws, resource.WithResetMask(mini.ConcMask(o.R)))
+	}
+	if !o.Mm.Nil {
+		ws = append(ws, resource.WithMoreUpdateMask(mini.ConcMask(o.Mm)))
 	}
 	if o.Ev.Has {
 		ws = append(ws, resource.WithExpectedValue(mini.Conc(o.Ev.V)))
@@ -646,7 +650,7 @@ func runCollProgram(p program, out *hx.Out) {
 }
 
 func zeroOpts() wopts {
-	return wopts{M: mini.Mask{Nil: true}, R: mini.Mask{Nil: true}, Ev: optMsg{V: mini.Empty()}, First: "g", Wt: -1}
+	return wopts{M: mini.Mask{Nil: true}, R: mini.Mask{Nil: true}, Mm: mini.Mask{Nil: true}, Ev: optMsg{V: mini.Empty()}, First: "g", Wt: -1}
 }
 
 func valSnapshot(v *resource.Value) absVal {
